@@ -129,8 +129,10 @@ PROPS = {
         "note": "tarjan_exact: the Tarjan transcription returns exactly the mutual-reachability classes for every graph and every iteration order (the verified partition checker is still applied to the real code's outputs).",
         "theorems": ["ArgMapper.C20.dfs_exact", "ArgMapper.C20.dfs_sound_once", "ArgMapper.C20.dfs_abort",
                      "ArgMapper.C20.isTopoOrder_iff", "ArgMapper.C20.kahn_acyclic", "ArgMapper.C20.kahn_cyclic",
-                     "ArgMapper.C20.reachB_iff", "ArgMapper.C20.isSccPartition_iff", "ArgMapper.C20.topo_exact", "ArgMapper.C20.tarjan_exact"],
-        "modules": ["ArgMapper.Props.C20"],
+                     "ArgMapper.C20.reachB_iff", "ArgMapper.C20.isSccPartition_iff", "ArgMapper.C20.topo_exact", "ArgMapper.C20.tarjan_exact",
+                     "ArgMapper.C20.kahn_sound", "ArgMapper.C20.kahn_iff", "ArgMapper.C20.kahn_pred_first", "ArgMapper.C20.explored_reach",
+                     "ArgMapper.C20.dfs_reports_reachable", "ArgMapper.C20.dfs_all_reachable"],
+        "modules": ["ArgMapper.Props.C20", "ArgMapper.Props.C20c"],
         "rule": "dfs/kahn/scc/topo: >=3 vertices and >=2 edges.",
         "runs": {
             "quick": [fam("dfs", 500, 7), fam("kahn", 400, 7), fam("scc", 400, 7), fam("topo", 400, 7), fam("dfs", 512, 3, "exhaustive"), fam("kahn", 512, 3, "exhaustive"), fam("scc", 512, 3, "exhaustive")],
